@@ -153,6 +153,13 @@ struct C06 : Scenario {
 				case 5: pat = "*" + full.substr(rng.below(full.size() + 1)); break;
 				default: pat = "nomatch*"; break;
 			}
+			switch (rng.below(8)) {
+				case 0: pat += "**"; break;
+				case 1: pat = "**" + pat; break;
+				case 2: if (!pat.empty()) pat.insert(rng.below(pat.size() + 1), "*"); break;
+				case 3: if (pat.size() > 1) { size_t k = rng.below(pat.size()); pat = pat.substr(0, k) + "*" + pat.substr(k + 1) + "*"; } break;
+				default: break;
+			}
 			if (pat.empty()) pat = "*";
 			p.argv.push_back(pat);
 		}
